@@ -2566,6 +2566,30 @@ def tsan_stress(res, pipe, summary, exact):
                 i = e1.find('WARNING: ThreadSanitizer')
                 res.violation('data-race', 'ThreadSanitizer / failure in a native session (pace %d us): %s' % (pace, x[:80]),
                               {'class': 'File', 'failure': 'tsan-report', 'request': q, 'report': e1[i:i + 3000] if i >= 0 else e1[-1500:]})
+    # early close of a read session on a file far larger than the read-ahead: close() runs while both workers are still busy
+    # (the compressed-file stream, the in-memory stream and the queue are all touched from two sides)
+    ti = next(i for i, f in enumerate(next(c for c in summary['classes'] if c['name'] == 'AppText')['fields']) if f['name'] == 'text')
+    env = dict(fc.fenv())
+    env.update({'TSAN_OPTIONS': 'halt_on_error=1 exitcode=66 report_signal_unsafe=0', 'VERIF_WATCHDOG_S': '60'})
+    brq = 'writefile level=1 cs=4096 rp=1 ' + ' '.join(';; AppText %d=%s' % (ti, '%02x' % (0x61 + k % 26) * 6000) for k in range(60))
+    w, rc, err = lib.session(texe, [brq], env=env, timeout=600)
+    nreq += 1
+    if w and w[0].startswith('writefile out='):
+        fhex = w[0].split('out=')[1]
+        hreq = ['api %s %s' % (fhex, h) for h in ('oi c', 'oi r c', 'oi r r r d', 'oi r r r r r r r r r r r r c', 'oi z c', 'oi r z d')] * (2 if res.tier == 'quick' else 10)
+        ha, rc, err = lib.psession(texe, hreq, nproc=6, env=env, timeout=3600)
+        nreq += len(hreq)
+        for q, x in zip(hreq, ha if len(ha) == len(hreq) else ['no answer'] * len(hreq)):
+            if 'leak=' not in x:
+                reports += 1
+                if reports <= 3:
+                    o1, rc1, e1 = lib.session(texe, [q], env=env)
+                    i = e1.find('WARNING: ThreadSanitizer')
+                    res.violation('data-race', 'ThreadSanitizer / failure in an early-close read session: %s' % x[:80],
+                                  {'class': 'File', 'failure': 'tsan-report', 'request': q, 'report': e1[i:i + 3000] if i >= 0 else e1[-1500:]})
+    else:
+        reports += 1
+        res.violation('data-race', 'ThreadSanitizer / failure while writing the large file: %s' % (w[0][:80] if w else 'no answer'), {'class': 'File', 'failure': 'tsan-report', 'request': brq[:300]})
     res.corr['tsan_native_sessions'] = nreq
     res.corr['tsan_reports'] = reports
     res.oblige('D:tsan-native-sessions-clean', reports == 0, '%d sessions with a ThreadSanitizer report or failure' % reports)
